@@ -1,7 +1,7 @@
 SPECIFICATION GenSpec
 CONSTANTS
   Shapes <- MCShapes
-  ShapeNames = {"leaf", "branch2", "ext", "dupleaf", "deep", "slot16"}
+  ShapeNames = {"leaf", "branch2", "ext", "dupleaf", "deep", "cap", "wide", "slot16"}
   Caps = {1, 2, 3}
   Algos = {"double", "single"}
   FaultSets = {{"evict", "lose"}, {"cancel", "evict", "lose"}}
@@ -9,6 +9,6 @@ CONSTANTS
   InitDBs <- MCInitDBs
   Threats = {}
   Log <- LogAppend
-  Depth = 120
+  Depth = 140
 ACTION_CONSTRAINT EmitFull
 CHECK_DEADLOCK FALSE
